@@ -52,12 +52,28 @@ theorem prepR_lt (r : Nat) (it : TraceItem) : (prepR r it).2 < 65536 := by
 
 /-! ### the plain fragment -/
 
-/-- events outside the fragment: platform commands, macro tracks (pan envelope on), pitch envelope
-on; notes outside the MDSDRV range (the writer refuses them; in drum mode the same range is the
-oracle's domain for routine numbers) -/
+/-- events outside the fragment: pitch envelope on; notes outside the MDSDRV range (the writer
+refuses them; in drum mode the same range is the oracle's domain for routine numbers) -/
 def SimpleEv (e : Event) : Prop :=
-  e.type ≠ ev_PLATFORM ∧ (e.type = ev_PAN_ENVELOPE → e.param = 0) ∧
   (e.type = ev_NOTE → 0 ≤ e.param ∧ e.param < 94) ∧ (e.type = ev_PITCH_ENVELOPE → e.param = 0)
+
+/-- what a writer's hook looks up outside its own state: the subroutine map, the macro-track map,
+the platform commands of the song -/
+structure WCtx where
+  sub : List (Int × Nat)
+  mac : List (Int × Nat)
+  plat : List (Int × Option (List MEv))
+
+/-- the maps only grow -/
+def WCtx.le (a b : WCtx) : Prop := (∀ p ∈ a.sub, p ∈ b.sub) ∧ (∀ p ∈ a.mac, p ∈ b.mac) ∧ a.plat = b.plat
+
+theorem WCtx.le_refl (a : WCtx) : a.le a := ⟨fun _ h => h, fun _ h => h, rfl⟩
+theorem WCtx.le_trans {a b c : WCtx} (h1 : a.le b) (h2 : b.le c) : a.le c :=
+  ⟨fun p h => h2.1 p (h1.1 p h), fun p h => h2.2.1 p (h1.2.1 p h), h1.2.2.trans h2.2.2⟩
+
+def ctxOf (d : DataInfo) (c : Conv) : WCtx := ⟨c.subMap, c.macroMap, d.platform⟩
+
+theorem ctxOf_le (d : DataInfo) {c c' : Conv} (h : SubMono c c') : (ctxOf d c).le (ctxOf d c') := ⟨h.1, h.2, rfl⟩
 
 /-- the writer's drum-mode state after an event -/
 def dAfter (d : Bool) (it : TraceItem) : Bool :=
@@ -102,38 +118,45 @@ def detBody (d : Bool) (it : TraceItem) : Option (List MEv) :=
   else if it.ev.type = ev_TEMPO then some [⟨mds_TEMPO, u16 p⟩]
   else some []
 
-/-- what a shown hook call pushes; `m` = the subroutine map in which the index of a call or of a
-drum routine is looked up, `d` = the writer's drum-mode state -/
-inductive Body (m : List (Int × Nat)) (d : Bool) (it : TraceItem) : List MEv → Prop
-  | det {ms : List MEv} : detBody d it = some ms → Body m d it ms
-  | jump {k : Nat} : it.ev.type = ev_JUMP → (subKey it.ev.param false d, k) ∈ m → Body m d it [⟨mds_PAT, u16 (k : Int)⟩]
-  | ins {ty i : Nat} : it.ev.type = ev_INS → (ty = mds_INS ∨ ty = mds_PCM) → Body m d it [⟨ty, u16 (i : Int)⟩]
+/-- what a shown hook call pushes; `x` = where the index of a call, of a drum routine or of a macro
+track and the events of a platform command are looked up, `d` = the writer's drum-mode state -/
+inductive Body (x : WCtx) (d : Bool) (it : TraceItem) : List MEv → Prop
+  | det {ms : List MEv} : detBody d it = some ms → Body x d it ms
+  | jump {k : Nat} : it.ev.type = ev_JUMP → (subKey it.ev.param false d, k) ∈ x.sub → Body x d it [⟨mds_PAT, u16 (k : Int)⟩]
+  | ins {ty i : Nat} : it.ev.type = ev_INS → (ty = mds_INS ∨ ty = mds_PCM) → Body x d it [⟨ty, u16 (i : Int)⟩]
   /-- a note in drum mode: the note byte carries the index of the routine -/
-  | dnote {k q : Nat} : it.ev.type = ev_NOTE → d = true → (subKey it.ev.param true false, k) ∈ m →
+  | dnote {k q : Nat} : it.ev.type = ev_NOTE → d = true → (subKey it.ev.param true false, k) ∈ x.sub →
       (q : Int) = (if wrap16 (k : Int) < 0 then 0 else wrap16 (k : Int)) → q < 94 →
-      Body m d it [⟨mds_NOTE + q, u16 it.on⟩]
+      Body x d it [⟨mds_NOTE + q, u16 it.on⟩]
+  /-- a platform command: the events `parse_platform_event` made of its text -/
+  | plat {evs : List MEv} : it.ev.type = ev_PLATFORM → x.plat.lookup it.ev.param = some (some evs) → Body x d it evs
+  /-- a macro track (pan envelope on): its index + 1 -/
+  | mtab {k : Nat} : it.ev.type = ev_PAN_ENVELOPE → it.ev.param ≠ 0 → (it.ev.param, k) ∈ x.mac →
+      Body x d it [⟨mds_MTAB, u16 (wrap16 ((k : Int) + 1))⟩]
 
-theorem Body.mono {m m' : List (Int × Nat)} (hm : ∀ p ∈ m, p ∈ m') {d : Bool} {it : TraceItem} {ms : List MEv}
-    (h : Body m d it ms) : Body m' d it ms := by
+theorem Body.mono {x x' : WCtx} (hx : x.le x') {d : Bool} {it : TraceItem} {ms : List MEv}
+    (h : Body x d it ms) : Body x' d it ms := by
   cases h with
   | det h => exact .det h
-  | jump h1 h2 => exact .jump h1 (hm _ h2)
+  | jump h1 h2 => exact .jump h1 (hx.1 _ h2)
   | ins h1 h2 => exact .ins h1 h2
-  | dnote h1 h2 h3 h4 h5 => exact .dnote h1 h2 (hm _ h3) h4 h5
+  | dnote h1 h2 h3 h4 h5 => exact .dnote h1 h2 (hx.1 _ h3) h4 h5
+  | plat h1 h2 => exact .plat h1 (by rw [← hx.2.2]; exact h2)
+  | mtab h1 h2 h3 => exact .mtab h1 h2 (hx.2.1 _ h3)
 
 /-- the writer's event list for a list of shown hook calls: drum-mode state `d`, pending rest `r`,
 loop point seen `g` -/
-inductive Emits (m : List (Int × Nat)) : Bool → Nat → Bool → List TraceItem → List MEv → Nat → Bool → Prop
-  | nil (d : Bool) (r : Nat) (g : Bool) : Emits m d r g [] [] r g
+inductive Emits (x : WCtx) : Bool → Nat → Bool → List TraceItem → List MEv → Nat → Bool → Prop
+  | nil (d : Bool) (r : Nat) (g : Bool) : Emits x d r g [] [] r g
   | cons {d : Bool} {r : Nat} {g : Bool} {it : TraceItem} {its : List TraceItem} {b ms : List MEv} {r' : Nat} {g' : Bool} :
-      Body m d it b → Emits m (dAfter d it) (prepR r it).2 (g || it.ev.type == ev_SEGNO) its ms r' g' →
-      Emits m d r g (it :: its) ((prepR r it).1 ++ b ++ ms) r' g'
+      Body x d it b → Emits x (dAfter d it) (prepR r it).2 (g || it.ev.type == ev_SEGNO) its ms r' g' →
+      Emits x d r g (it :: its) ((prepR r it).1 ++ b ++ ms) r' g'
 
-theorem Emits.mono {m m' : List (Int × Nat)} (hm : ∀ p ∈ m, p ∈ m') {d : Bool} {r : Nat} {g : Bool} {its : List TraceItem}
-    {ms : List MEv} {r' : Nat} {g' : Bool} (h : Emits m d r g its ms r' g') : Emits m' d r g its ms r' g' := by
+theorem Emits.mono {x x' : WCtx} (hx : x.le x') {d : Bool} {r : Nat} {g : Bool} {its : List TraceItem}
+    {ms : List MEv} {r' : Nat} {g' : Bool} (h : Emits x d r g its ms r' g') : Emits x' d r g its ms r' g' := by
   induction h with
   | nil d r g => exact .nil d r g
-  | cons hb _ ih => exact .cons (hb.mono hm) ih
+  | cons hb _ ih => exact .cons (hb.mono hx) ih
 
 /-- the writer state after a shown hook call that pushed `ms` -/
 def pushed (w : WState) (it : TraceItem) (ms : List MEv) : WState :=
@@ -271,10 +294,11 @@ theorem hookVis_det {song : Song} {d : DataInfo} {n : Nat} {c : Conv} {w : WStat
 set_option hygiene false in
 macro "skip_some" : tactic => `(tactic| (rw [if_pos t] at h; cases h))
 
-/-- outside `detBody`: calls, instruments, notes in drum mode -/
+/-- outside `detBody`: calls, instruments, notes in drum mode, platform commands, macro tracks -/
 theorem detBody_none {d : Bool} {it : TraceItem} (hs : SimpleEv it.ev) (h : detBody d it = none) :
-    it.ev.type = ev_JUMP ∨ it.ev.type = ev_INS ∨ (it.ev.type = ev_NOTE ∧ d = true) := by
-  obtain ⟨s1, s3, s4, s5⟩ := hs
+    it.ev.type = ev_JUMP ∨ it.ev.type = ev_INS ∨ (it.ev.type = ev_NOTE ∧ d = true) ∨ it.ev.type = ev_PLATFORM ∨
+      (it.ev.type = ev_PAN_ENVELOPE ∧ it.ev.param ≠ 0) := by
+  obtain ⟨s4, s5⟩ := hs
   unfold detBody at h
   simp only at h
   by_cases t : it.ev.type = ev_TIE
@@ -283,7 +307,7 @@ theorem detBody_none {d : Bool} {it : TraceItem} (hs : SimpleEv it.ev) (h : detB
   by_cases t : it.ev.type = ev_NOTE
   · rw [if_pos t] at h
     by_cases hd : d = true
-    · exact .inr (.inr ⟨t, hd⟩)
+    · exact .inr (.inr (.inl ⟨t, hd⟩))
     · rw [if_neg hd, if_pos (s4 t)] at h; cases h
   rw [if_neg t] at h; clear t
   by_cases t : it.ev.type = ev_LOOP_START
@@ -304,7 +328,9 @@ theorem detBody_none {d : Bool} {it : TraceItem} (hs : SimpleEv it.ev) (h : detB
   by_cases t : it.ev.type = ev_SLUR
   · skip_some
   rw [if_neg t] at h; clear t
-  rw [if_neg s1] at h
+  by_cases t : it.ev.type = ev_PLATFORM
+  · exact .inr (.inr (.inr (.inl t)))
+  rw [if_neg t] at h; clear t
   by_cases t : it.ev.type = ev_TRANSPOSE_REL
   · skip_some
   rw [if_neg t] at h; clear t
@@ -333,7 +359,10 @@ theorem detBody_none {d : Bool} {it : TraceItem} (hs : SimpleEv it.ev) (h : detB
   · skip_some
   rw [if_neg t] at h; clear t
   by_cases t : it.ev.type = ev_PAN_ENVELOPE
-  · rw [if_pos t, if_pos (s3 t)] at h; cases h
+  · rw [if_pos t] at h
+    by_cases hp : it.ev.param = 0
+    · rw [if_pos hp] at h; cases h
+    · exact .inr (.inr (.inr (.inr ⟨t, hp⟩)))
   rw [if_neg t] at h; clear t
   by_cases t : it.ev.type = ev_PITCH_ENVELOPE
   · rw [if_pos t, if_pos (s5 t)] at h; cases h
@@ -386,6 +415,41 @@ theorem hookVis_ins {song : Song} {d : DataInfo} {n : Nat} {c : Conv} {w : WStat
     if_neg (show ¬ it.ev.type = ev_VOL by rw [t]; decide),
     if_neg (show ¬ (it.ev.type = ev_VOL_REL ∨ it.ev.type = ev_VOL_FINE_REL) by rw [t]; decide),
     if_neg (show ¬ it.ev.type = ev_TEMPO_BPM by rw [t]; decide), if_pos t]
+  rfl
+
+theorem hookVis_plat {song : Song} {d : DataInfo} {n : Nat} {c : Conv} {w : WState} {it : TraceItem}
+    (t : it.ev.type = ev_PLATFORM) :
+    hookVis song d n c w it =
+      match d.platform.lookup it.ev.param with
+      | none => .error .platformMissing
+      | some none => .error .platformBad
+      | some (some evs) => .ok (c, { w with out := w.out ++ evs }) := by
+  unfold hookVis
+  rw [if_neg (show ¬ it.ev.type = ev_TIE by rw [t]; decide), if_neg (show ¬ it.ev.type = ev_NOTE by rw [t]; decide),
+    if_neg (show ¬ it.ev.type = ev_LOOP_START by rw [t]; decide), if_neg (show ¬ it.ev.type = ev_LOOP_BREAK by rw [t]; decide),
+    if_neg (show ¬ it.ev.type = ev_LOOP_END by rw [t]; decide), if_neg (show ¬ it.ev.type = ev_SEGNO by rw [t]; decide),
+    if_neg (show ¬ it.ev.type = ev_JUMP by rw [t]; decide), if_neg (show ¬ it.ev.type = ev_SLUR by rw [t]; decide),
+    if_pos t]
+  rfl
+
+theorem hookVis_mtab {song : Song} {d : DataInfo} {n : Nat} {c : Conv} {w : WState} {it : TraceItem}
+    (t : it.ev.type = ev_PAN_ENVELOPE) (hp : it.ev.param ≠ 0) :
+    hookVis song d n c w it =
+      match getMacroTrack song d n c it.ev.param with
+      | .error x => .error x
+      | .ok (c', id) => .ok (c', Mds.push w mds_MTAB (wrap16 (id + 1))) := by
+  unfold hookVis
+  rw [if_neg (show ¬ it.ev.type = ev_TIE by rw [t]; decide), if_neg (show ¬ it.ev.type = ev_NOTE by rw [t]; decide),
+    if_neg (show ¬ it.ev.type = ev_LOOP_START by rw [t]; decide), if_neg (show ¬ it.ev.type = ev_LOOP_BREAK by rw [t]; decide),
+    if_neg (show ¬ it.ev.type = ev_LOOP_END by rw [t]; decide), if_neg (show ¬ it.ev.type = ev_SEGNO by rw [t]; decide),
+    if_neg (show ¬ it.ev.type = ev_JUMP by rw [t]; decide), if_neg (show ¬ it.ev.type = ev_SLUR by rw [t]; decide),
+    if_neg (show ¬ it.ev.type = ev_PLATFORM by rw [t]; decide), if_neg (show ¬ it.ev.type = ev_TRANSPOSE_REL by rw [t]; decide),
+    if_neg (show ¬ it.ev.type = ev_VOL by rw [t]; decide),
+    if_neg (show ¬ (it.ev.type = ev_VOL_REL ∨ it.ev.type = ev_VOL_FINE_REL) by rw [t]; decide),
+    if_neg (show ¬ it.ev.type = ev_TEMPO_BPM by rw [t]; decide), if_neg (show ¬ it.ev.type = ev_INS by rw [t]; decide),
+    if_neg (show ¬ it.ev.type = ev_TRANSPOSE by rw [t]; decide), if_neg (show ¬ it.ev.type = ev_DETUNE by rw [t]; decide),
+    if_neg (show ¬ it.ev.type = ev_VOL_FINE by rw [t]; decide), if_neg (show ¬ it.ev.type = ev_PAN by rw [t]; decide),
+    if_pos t, if_pos hp]
   rfl
 
 theorem hookVis_peg {song : Song} {d : DataInfo} {n : Nat} {c : Conv} {w : WState} {it : TraceItem}
@@ -442,7 +506,7 @@ theorem hookVis_simple {song : Song} {d : DataInfo} (hpc : PlatformClean d) {n :
     {it : TraceItem} {L : List (List MEv)} {P : Pend} (hs : SimpleEv it.ev)
     (hi : w.inDrum = false ∨ it.ev.type ≠ ev_NOTE) (hinv : Inv song d c (w.out :: L) P)
     (h : hookVis song d n c w it = .ok (c', w')) :
-    ∃ ms, Body c'.subMap w.drumEnabled it ms ∧ w' = pushed w it ms := by
+    ∃ ms, Body (ctxOf d c') w.drumEnabled it ms ∧ w' = pushed w it ms := by
   cases hb : detBody w.drumEnabled it with
   | some ms =>
     rw [hookVis_det hi hb] at h
@@ -450,7 +514,34 @@ theorem hookVis_simple {song : Song} {d : DataInfo} (hpc : PlatformClean d) {n :
     obtain ⟨rfl, rfl⟩ := h
     exact ⟨ms, .det hb, rfl⟩
   | none =>
-    rcases detBody_none hs hb with t | t | ⟨t, hd⟩
+    rcases detBody_none hs hb with t | t | ⟨t, hd⟩ | t | ⟨t, hp⟩
+    rotate_right 2
+    · -- a platform command
+      rw [hookVis_plat t] at h
+      cases hl : d.platform.lookup it.ev.param with
+      | none => rw [hl] at h; cases h
+      | some o =>
+        cases o with
+        | none => rw [hl] at h; cases h
+        | some evs =>
+          rw [hl] at h
+          simp only [Except.ok.injEq, Prod.mk.injEq] at h
+          obtain ⟨rfl, rfl⟩ := h
+          refine ⟨evs, .plat t hl, ?_⟩
+          have hns : (it.ev.type == ev_SEGNO) = false := by rw [t]; decide
+          have hnd : ¬ it.ev.type = ev_DRUM_MODE := by rw [t]; decide
+          simp [pushed, hns, dAfter, hnd]
+    · -- a macro track
+      rw [hookVis_mtab t hp] at h
+      cases hg : getMacroTrack song d n c it.ev.param with
+      | error x => rw [hg] at h; cases h
+      | ok p =>
+        obtain ⟨c2, id⟩ := p
+        rw [hg] at h
+        simp only [Except.ok.injEq, Prod.mk.injEq] at h
+        obtain ⟨rfl, rfl⟩ := h
+        obtain ⟨k, rfl, _, hmem, _, _⟩ := (writerInv hpc n).mac c _ c2 id (w.out :: L) P hinv hg
+        exact ⟨_, .mtab t hp hmem, push_eq w it mds_MTAB _ (by decide) (by rw [t]; decide) (by rw [t]; decide)⟩
     · rw [hookVis_jump t] at h
       cases hg : getSubroutine song d n c it.ev.param false w.drumEnabled with
       | error x => rw [hg] at h; cases h
@@ -604,7 +695,7 @@ theorem run_emits {d : DataInfo} (hpc : PlatformClean d) (fuel : Nat) :
       Inv song d c (w.out :: L) P →
       runWriter song d root (fuel + 1) steps c w ⟨c0, a⟩ = .ok (cF, wF) →
       ∃ (m : Nat) (c1 : Conv) (w1 : WState) (a1 : Acc) (ms : List MEv), steps = k + m ∧
-        Emits c1.subMap w.drumEnabled w.restTime w.inLoop (visItems rs) ms w1.restTime w1.inLoop ∧
+        Emits (ctxOf d c1) w.drumEnabled w.restTime w.inLoop (visItems rs) ms w1.restTime w1.inLoop ∧
         w1.out = w.out ++ ms ∧ WS w1 ∧
         w1.trackId = w.trackId ∧ w1.inDrum = w.inDrum ∧ w1.drumEnabled = dAfterL w.drumEnabled (visItems rs) ∧
         SubMono c c1 ∧ Inv song d c1 (w1.out :: L) P ∧ a1.enabled = true ∧
@@ -696,7 +787,7 @@ theorem run_emits {d : DataInfo} (hpc : PlatformClean d) (fuel : Nat) :
                     · left; rw [hwp]; exact hin
                     · right; exact hin it (by simp)
                   obtain ⟨b, hbody, hw'⟩ := hookVis_simple hpc hse hi0 hinvp hh'
-                  have hbody' : Body c'.subMap w.drumEnabled it b := by
+                  have hbody' : Body (ctxOf d c') w.drumEnabled it b := by
                     have : wp.drumEnabled = w.drumEnabled := by rw [hwp]
                     rw [this] at hbody; exact hbody
                   obtain ⟨hinv', hmono'⟩ := (writerInv hpc (n + 1)).hook c w it c' w' L P hinv hh
@@ -717,7 +808,7 @@ theorem run_emits {d : DataInfo} (hpc : PlatformClean d) (fuel : Nat) :
                   have ho' : w'.out = w.out ++ (prepR w.restTime it).1 ++ b := by rw [hw', hwp]; rfl
                   rw [hr', hg', hdr'] at he
                   refine ⟨m, c1, w1, a1, (prepR w.restTime it).1 ++ b ++ ms, by omega,
-                    .cons (hbody'.mono hmono.1) he, by rw [hout, ho']; simp [List.append_assoc], hws1,
+                    .cons (hbody'.mono (ctxOf_le d hmono)) he, by rw [hout, ho']; simp [List.append_assoc], hws1,
                     by rw [htid, hw', hwp]; rfl, hind.trans hind', by rw [hdr, hdr']; rfl,
                     hmono'.trans hmono, hinv1, hen1, ?_, hrun⟩
                   rw [htf]; exact htime
@@ -774,7 +865,7 @@ theorem writer_flat {d : DataInfo} (hpc : PlatformClean d) (hne : SongNoEnd song
     (hsimple : ∀ e ∈ root, SimpleEv e) (fuel steps : Nat) (c : Conv) (w : WState) (cF : Conv) (wF : WState)
     (L : List (List MEv)) (P : Pend) (hws : WS w) (hind : w.inDrum = false) (hinv : Inv song d c (w.out :: L) P)
     (h : runWriter song d root (fuel + 1) steps c w initState = .ok (cF, wF)) :
-    ∃ ms r g, Emits cF.subMap w.drumEnabled w.restTime w.inLoop (root.map fun e => tItem e e) ms r g ∧ r < 65536 ∧
+    ∃ ms r g, Emits (ctxOf d cF) w.drumEnabled w.restTime w.inLoop (root.map fun e => tItem e e) ms r g ∧ r < 65536 ∧
       wF.out = w.out ++ ms ++ flushL r ++
         [⟨if g = true ∧ (totalDur items : Int) ≠ toInt (loopTime items) then mds_JUMP else mds_FINISH, 0⟩] ∧
       SubMono c cF ∧ Inv song d cF (wF.out :: L) P := by
@@ -823,7 +914,7 @@ theorem writer_routine {d : DataInfo} (hpc : PlatformClean d) (hne : SongNoEnd s
     (hdr : dAfterL w.drumEnabled ((flattenL fpre).map fun e => tItem e e) = false)
     (hinv : Inv song d c (w.out :: L) P)
     (h : runWriter song d root (fuel + 1) steps c w initState = .ok (cF, wF)) :
-    ∃ ms r g, Emits cF.subMap w.drumEnabled w.restTime w.inLoop ((flattenL fpre).map fun e => tItem e e) ms r g ∧
+    ∃ ms r g, Emits (ctxOf d cF) w.drumEnabled w.restTime w.inLoop ((flattenL fpre).map fun e => tItem e e) ms r g ∧
       r < 65536 ∧
       wF.out = w.out ++ ms ++ (prepR r (tItem note note)).1 ++ [⟨mds_DMFINISH, u16 note.param⟩] ∧
       SubMono c cF ∧ Inv song d cF (wF.out :: L) P := by
